@@ -42,6 +42,9 @@ def run_check(pid: str, tier: str, seed: int, replay: str | None = None) -> int:
     prop = importlib.import_module(modname).PROP
     violations = []        # (replay file, suffix)
     notes = []
+    if not replay:
+        for old in glob.glob(os.path.join(OUT, "replay", f"{pid}-{tier}-{seed}-*.json")):
+            os.unlink(old)
 
     # 1. facts
     from tools import extract_facts
